@@ -24,7 +24,7 @@ var fileMutators = map[string]int{ // callee -> index of the path argument
 
 func ruleC11(c *Ctx, r *Report) {
 	an := c.anchors()
-	if !requireAnchors(r, an, "C11-anchor") {
+	if !requireAnchors(r, an, "C11-anchor", "redact") {
 		return
 	}
 	cl := an.RedactClosure
@@ -276,6 +276,7 @@ func ruleC11(c *Ctx, r *Report) {
 			okAll := need["read"] && need["base64"] && need["len"]
 			r.Check(okAll, "C11-R3", reader.Name()+":success-return", c.InstrPos(i), "dominated by read err==nil, base64 err==nil, len==64", fmt.Sprintf("a key is accepted without all validations: %v", need))
 		})
+		keyReaderShapeRule(c, r, reader, "C11-R3")
 		// sibling agreement on the constant 64
 		agree := true
 		var where []string
@@ -394,4 +395,79 @@ func hasErrorResult(call *ssa.Call) bool {
 		}
 	}
 	return false
+}
+
+// keyReaderShapeRule (C11-R3 / C10-R4): the accepted key is the decoding of the WHOLE file
+// content - success return = DecodeString(string(ReadFile(path))) (white-space trimming
+// tolerated) - a fresh slice that nothing in the reader writes into afterwards.
+func keyReaderShapeRule(c *Ctx, r *Report, reader *ssa.Function, rule string) {
+	okShape := false
+	detail := "no success return found"
+	allInstrs(reader, func(i ssa.Instruction) {
+		ret, ok := i.(*ssa.Return)
+		if !ok || len(ret.Results) != 2 || !isNilConst(resolveLocal(ret.Results[1])) {
+			return
+		}
+		v := resolveLocal(ret.Results[0])
+		ex, ok := v.(*ssa.Extract)
+		if !ok || ex.Index != 0 {
+			detail = "the returned key is not the result of the base64 decoding call"
+			return
+		}
+		dc, ok := ex.Tuple.(*ssa.Call)
+		if !ok || !strings.HasSuffix(calleeKey(&dc.Call), "encoding/base64.Encoding).DecodeString") {
+			detail = "the returned key is not the result of (*base64.Encoding).DecodeString"
+			return
+		}
+		arg := dc.Call.Args[1]
+		for depth := 0; depth < 4; depth++ {
+			if tc, ok := arg.(*ssa.Call); ok && (calleeKey(&tc.Call) == "strings.TrimSpace" || calleeKey(&tc.Call) == "bytes.TrimSpace") {
+				arg = tc.Call.Args[0]
+				continue
+			}
+			if cv, ok := arg.(*ssa.Convert); ok {
+				arg = cv.X
+				continue
+			}
+			break
+		}
+		rx, ok := arg.(*ssa.Extract)
+		if !ok || rx.Index != 0 {
+			detail = "the decoded text is not the content returned by the file read"
+			return
+		}
+		rc, ok := rx.Tuple.(*ssa.Call)
+		if !ok || !(calleeKey(&rc.Call) == "os.ReadFile" || calleeKey(&rc.Call) == "io/ioutil.ReadFile") {
+			detail = "the decoded text does not come from os.ReadFile of the key path (partial reads accept files with trailing content)"
+			return
+		}
+		if _, isPrm := rc.Call.Args[0].(*ssa.Parameter); !isPrm {
+			detail = "the file read is not applied to the path parameter itself"
+			return
+		}
+		okShape = true
+		detail = "success return is DecodeString(string(os.ReadFile(path))): the whole file content is validated"
+	})
+	// nothing overwrites buffers in the reader
+	var wipes []string
+	allInstrs(reader, func(i ssa.Instruction) {
+		if cc := callCommonOf(i); cc != nil {
+			k := calleeKey(cc)
+			if k == "builtin clear" || k == "builtin copy" {
+				wipes = append(wipes, shortKey(k)+" at "+c.InstrPos(i))
+			}
+		}
+		if st, ok := i.(*ssa.Store); ok {
+			if ia, ok := st.Addr.(*ssa.IndexAddr); ok {
+				if _, isArr := ia.X.(*ssa.Alloc); !isArr {
+					wipes = append(wipes, "element store at "+c.InstrPos(i))
+				}
+			}
+		}
+	})
+	if len(wipes) > 0 {
+		okShape = false
+		detail = "the key reader writes into a buffer (" + strings.Join(wipes, ", ") + "): the returned key can alias memory that is cleared or overwritten"
+	}
+	r.Check(okShape, rule, reader.Name()+":decodes-whole-file", c.Pos(reader.Pos()), detail, detail)
 }
